@@ -160,6 +160,12 @@ func verifyScratchMaxEpoch(c *core.Ctx, fn *ssa.Function) (bool, string) {
 						if l := core.InnermostLoop(f, st.Block()); l != nil && l.Body[in.Block()] {
 							dom = true
 						}
+						// the scratch field is shared state: it may only be written with the headers mutex write-held
+						if mu := c.P.Field(pkg, "baseForkDetector", "mutHeaders"); mu != nil {
+							if core.LockModes(f, mu, core.ModeNone)[st] != core.ModeW {
+								dom = false
+							}
+						}
 					}
 				}
 			})
@@ -237,6 +243,36 @@ func c20Fold(c *core.Ctx, fn *ssa.Function) {
 		}
 		c.Check(good, rule, name, r.Pos(), "takes the current header only under a strict (round, hash) comparison",
 			"the fold replaces its accumulator without a strict comparison on (round, then hash): the selected fork depends on the order headers arrived in")
+	}
+	// the filters that leave the accumulator unchanged must not depend on the accumulator (i.e. on what was seen
+	// before): the accumulator may appear in branch conditions only in the (round, hash) order comparisons
+	for _, b := range fn.Blocks {
+		ifi, ok := b.Instrs[len(b.Instrs)-1].(*ssa.If)
+		if !ok {
+			continue
+		}
+		for _, cj := range append(core.Conjuncts(ifi.Cond), core.Disjuncts(ifi.Cond)...) {
+			k := core.ExprKey(cj)
+			usesAcc := strings.Contains(k, "p2") || strings.Contains(k, "p3") || strings.Contains(k, "p4")
+			if !usesAcc {
+				continue
+			}
+			okCmp := false
+			if bo, isB := cj.(*ssa.BinOp); isB {
+				x, y := core.ExprKey(bo.X), core.ExprKey(bo.Y)
+				if (x == "p3" && !strings.Contains(y, "p2") && !strings.Contains(y, "p4")) || (y == "p3" && !strings.Contains(x, "p2") && !strings.Contains(x, "p4")) {
+					okCmp = true // round comparison
+				}
+				if strings.HasPrefix(x, "bytes.Compare(") && strings.Contains(x, "p1.hash") && strings.Contains(x, "p2") && !strings.Contains(x, "p3") && !strings.Contains(x, "p4") {
+					okCmp = true // hash tie-break
+				}
+			}
+			if _, isPhi := cj.(*ssa.Phi); isPhi {
+				okCmp = true // a resolved &&/|| value: its operands are checked on their own
+			}
+			c.Check(okCmp, rule, "computeForkInfo/filter-independent-of-accumulator@"+k, ifi.Pos(), "the accumulator is used only in the (round, hash) order comparison",
+				"a filter of the fold tests the accumulator ("+k+"): whether a header is considered depends on which headers were seen before it, i.e. on arrival order")
+		}
 	}
 	c.Check(byRound, rule, "computeForkInfo/round-order", fn.Pos(), "lower round wins", "no branch selects the header with the strictly lower round")
 	c.Check(tieBreak, rule, "computeForkInfo/hash-tie-break", fn.Pos(), "equal rounds are decided by the strictly lower hash",
